@@ -15,6 +15,8 @@ FV/Spec/Compile.lean — `Valid`, `ValidProg`, written over the syntax without c
   on the valid files (so `Valid` is decidable).
 * invalid ⇒ diagnosed: `c11_invalid_diagnosed` (¬Valid ⇒ `validate = err`, never a panic),
   kind by kind in `c11_invalid_kinds_diagnosed` and `c11_include_kinds_diagnosed`.
+* the command line (`main.go`): `c11_cli_iff` (exit 0 exactly when every file compiles and
+  `-gen` is accepted), `c11_cli_first` (stops at the first failing file).
 * never a stack overflow / a panic: `c11_underlying_terminates`, `c11_no_stack_overflow`,
   `c11_cyclic_typedef_rejected`, `c11_casing_total`, `c11_gen_param_total`.
 What is not: `Valid` is what `validate` is responsible for, not all of Thrift validity (duplicate
@@ -205,6 +207,47 @@ theorem c11_fitting_constant_generates (ctx : Ctx) (t : Ty) (v : Val) (h : Fits 
     ∃ n, ∀ fuel, n ≤ fuel → genConst ctx fuel t v = .ok () :=
   genConst_ok_of_fits ctx h
 
+/-- The command line (`main.go`): the exit status is 0 EXACTLY when there is at least one input
+file, `-gen` is given and accepted, and EVERY file compiles; otherwise it is 1 (never another
+value). -/
+theorem c11_cli_iff (gen : Option Name) (fs : List FileVerdict) :
+    ((cliMain gen fs).exit = 0 ↔ fs ≠ [] ∧ (∃ g, gen = some g ∧ genAccepted g = true) ∧ ∀ f ∈ fs, f = .valid) ∧
+    ((cliMain gen fs).exit = 0 ∨ (cliMain gen fs).exit = 1) := by
+  unfold cliMain
+  by_cases hf : fs = []
+  · simp [hf]
+  · cases gen with
+    | none => simp [hf]
+    | some g =>
+      simp only [hf, if_false, ne_eq, not_false_eq_true, true_and, Option.some.injEq, exists_eq_left']
+      refine ⟨?_, cliLoop_exit_le_one _ _⟩
+      rw [cliLoop_exit_zero_iff]
+      by_cases hg : genAccepted g = true
+      · simp [hg]
+      · simp only [hg, if_false, Bool.false_eq_true, false_and, iff_false, List.mem_map, forall_exists_index, and_imp,
+          forall_apply_eq_imp_iff₂]
+        cases fs with
+        | nil => exact absurd rfl hf
+        | cons f rest => intro h; exact absurd (h f List.mem_cons_self) (by decide)
+
+/-- … and the loop stops at the first file that fails: the files before it are compiled, it is
+the last one `Compile` is called on, none after it; if every file compiles all are compiled. -/
+theorem c11_cli_first (g : Name) (hg : genAccepted g = true) (pre post : List FileVerdict)
+    (hpre : ∀ f ∈ pre, f = .valid) :
+    cliMain (some g) (pre ++ .invalid :: post) = { exit := 1, compiled := pre.length + 1 } ∧
+    (pre ≠ [] → cliMain (some g) pre = { exit := 0, compiled := pre.length }) := by
+  constructor
+  · unfold cliMain
+    have : pre ++ FileVerdict.invalid :: post ≠ [] := by simp
+    simp only [this, if_false, hg, if_true, List.map_id']
+    have := cliLoop_first_invalid pre post 0 hpre
+    simpa using this
+  · intro hne
+    unfold cliMain
+    simp only [hne, if_false, hg, if_true, List.map_id']
+    have := cliLoop_all_valid pre 0 hpre
+    simpa using this
+
 /-- The census of syntactically partial operations of `main.go` and `compiler/**`
 (regenerated from the source on every check) has no unclassified site: each is mapped to the
 model clause that covers it or to the reason it is guarded / unreachable
@@ -260,6 +303,11 @@ example : Fits exChain (.named "a".toList) (.int 5) :=
   .base (n := "i64".toList) (by unfold Underlies; decide) (by decide) (by unfold BaseFits; decide)
 example : genConst exChain 5 (.named "string".toList) (.int 5) = .panic .typeAssert := by decide
 example : genConst exChain 5 (.named "i32".toList) (.ident "no_such".toList) = .panic .explicit := by decide
+-- the command line: a bad file that is not the last one still makes the exit status 1, and nothing after it is compiled
+example : cliMain (some "go".toList) [.valid, .invalid, .valid] = { exit := 1, compiled := 2 } := by decide
+example : cliMain (some "go:async".toList) [.valid, .valid] = { exit := 0, compiled := 2 } := by decide
+example : cliMain (some "cobol".toList) [.valid] = { exit := 1, compiled := 1 } := by decide
+example : cliMain none [.valid] = { exit := 1, compiled := 0 } := by decide
 example : lowerFirst [] = .panic .index := by decide
 example : includeNameToReference "..".toList = .panic .index := by decide
 
